@@ -335,7 +335,9 @@ def rule_refuse_arith(ctx: Ctx, rep: Report) -> None:
     bb: dict[str, str] = {}
     rep.ob(rule, "mod_inv:blinding", (vx.anywhere("mod_inv_var(a * $$b % m, m) * $$b % m", bb) or vx.anywhere("mod_inv_var($$b * a % m, m) * $$b % m", bb)) and "randbelow(m - 1)" in bb.get("$$b", "") and ("1 + " in bb["$$b"] or "+ 1" in bb["$$b"]),
            m2.where(), "blinded by a non-zero random factor, unblinded by the same")
-    rep.ob(rule, "mod_inv:fallback_refuses", "except BTClibValueError: return mod_inv_var(a, m)" in txt, m2.where(), "a blinded failure is re-asked unblinded (so a true non-invertible still raises)")
+    hs = [h for t_ in own_nodes(m2.node) if isinstance(t_, ast.Try) for h in t_.handlers if h.type is not None and "BTClibValueError" in norm(h.type)]
+    fb = any(any(isinstance(c, ast.Call) and norm(c) == "mod_inv_var(a, m)" for b_ in h.body for c in ast.walk(b_)) and h.body and isinstance(h.body[-1], ast.Return) for h in hs)
+    rep.ob(rule, "mod_inv:fallback_refuses", fb, m2.where(), "a blinded failure is re-asked unblinded (so a true non-invertible still raises)")
     for q in (f"{NT}.mod_sqrt_var", f"{NT}.tonelli_var"):
         fi = ctx.func(q)
         rs = [r for r in own_nodes(fi.node) if isinstance(r, ast.Raise) and "BTClibValueError" in norm(r)]
